@@ -373,4 +373,51 @@ def bgpSubjBefore (g : Graph) (p : Path) : List Pair := g.flatMap (fun t => eval
 def bgpObjAfter (g : Graph) (p : Path) : List Pair :=
   (evalPath g p none none).filter (fun r => g.any (fun t => t.2.2 == r.2))
 
+/-! ### round h — graph views: what a path evaluation reads of the graph object it is given
+
+`paths.py` touches its `graph` argument in three ways only: `graph.triples((s, p, o))` with a plain pattern (through `eval_path`
+for an IRI step, directly in `NegatedPath.eval`), `(o, p, s) in graph` (`NegatedPath.eval`), and `graph.subject_objects(None)`
+(`_all_fwd_paths`) — the last two are `triples` again in graph.py.  `TriplesFn` is that method of the graph object. -/
+
+abbrev TriplesFn := Option Term → Option Term → Option Term → List Triple
+
+def matchT (s p o : Option Term) (t : Triple) : Bool := okPos s t.1 && (okPos p t.2.1 && okPos o t.2.2)
+
+/-- `eval_path(graph, (s, iri, o))` -/
+def triV (tr : TriplesFn) (p : Term) : Ev := fun s o => (tr s (some p) o).map (fun t => (t.1, t.2.2))
+
+/-- `NegatedPath.eval` on a graph object: `graph.triples((subj, None, obj))`, `(o, a.arg, s) in graph` -/
+def negEvalV (tr : TriplesFn) (fw bw : List Term) : Ev := fun s o =>
+  ((tr s none o).filter (fun t => !(decide (t.2.1 ∈ fw)) &&
+      !(bw.any (fun a => !(tr (some t.2.2) (some a) (some t.1)).isEmpty)))).map (fun t => (t.1, t.2.2))
+
+mutual
+/-- `path.eval(view, s, o)`; `_all_fwd_paths` scans `view.subject_objects(None)` = `tr none none none` -/
+def evalPathV (tr : TriplesFn) : Path → Ev
+  | .iri p => triV tr p
+  | .inv p => invEval (evalPathV tr p)
+  | .seq p ps => seqEval (evalPathV tr p) (evalListV tr ps)
+  | .alt ps => altEval (evalListV tr ps)
+  | .mul p m => mulEval (tr none none none) (evalPathV tr p) m
+  | .neg fw bw => negEvalV tr fw bw
+def evalListV (tr : TriplesFn) : List Path → List Ev
+  | [] => []
+  | p :: ps => evalPathV tr p :: evalListV tr ps
+end
+
+/-- a plain `Graph` (also `ds.graph(n)`: one context of a shared store): the store's scan of that context, filtered -/
+def plainView (g : Graph) : TriplesFn := fun s p o => g.filter (matchT s p o)
+
+/-- `ConjunctiveGraph` / `Dataset(default_union=True)` without a context: `store.triples(pattern, context=None)` yields every
+    triple of any context once -/
+def unionView (ctxs : List Graph) : TriplesFn := fun s p o => uniq [] (ctxs.flatten.filter (matchT s p o))
+
+/-- `ReadOnlyGraphAggregate.triples` (plain pattern): member by member, skipping a triple held by an earlier member -/
+def aggScan (s p o : Option Term) : List Graph → List Graph → List Triple
+  | _, [] => []
+  | before, m :: ms =>
+    m.filter (fun t => matchT s p o t && !(before.any (fun g => decide (t ∈ g)))) ++ aggScan s p o (before ++ [m]) ms
+
+def aggView (ms : List Graph) : TriplesFn := fun s p o => aggScan s p o [] ms
+
 end RV.C11
